@@ -194,7 +194,7 @@ func runC19(c *fw.Ctx) {
 	ctxOf := func() (context.Context, context.CancelFunc) {
 		return context.WithTimeout(context.Background(), 20*time.Second)
 	}
-	for i := 0; i < c.PerShard(c.Pick(1600, 60000)); i++ {
+	for i := 0; i < c.PerShard(c.Pick(4000, 120000)); i++ {
 		pg := gens[i%len(gens)]
 		forms := pg.Program()
 		// the program's value is observed through a final trace! on every route
